@@ -7,7 +7,8 @@
 //!        triangular, Q R = A, det(AB) = det A det B, row exchange flips the sign, norms against their definitions.
 //!
 //! Robustness streams (FRAMEWORK.md): every call is made on BOTH receivers (`array.op()` and `Ok(array).op()`, bit-identical
-//! answers required); `x…` ops carry a variant `<type>/<scaleA>/<scaleB>`: the same integer array given to the crate as
+//! answers required); round 5: `p…` ops give every ENTRY its own exact scale (magnitude bands, see `gen_bands`), `gnorm` = norms of more than
+//! 2^20 elements against a native reference; `x…` ops carry a variant `<type>/<scaleA>/<scaleB>`: the same integer array given to the crate as
 //! f64 / f32 / i32 / i64 and multiplied by an exact scale (2^±30, 2^±40, 10^±9, 10^±12) — the model answers in exact
 //! rationals of the scaled input and every tolerance is RELATIVE to the natural unit of the answer (s^n for det, s for
 //! norm and R, sb/sa for solve, 1 for Q); sizes n = 7, 8, stacks and vectors of 64 … 4900 elements, zero-length axes.
@@ -771,6 +772,41 @@ fn gen_bands(out: &mut dyn FnMut(String), seed: u64, thorough: bool) {
     }
 }
 
+/// ---- 11. giant norms: more than 2^20 elements (a blocked / chunked reduction that only starts there), digit arrays built by formula on
+/// both sides; the harness-native reference answers and is compared with the model on the smaller `gnorm` lines of the same run.  Only
+/// forms whose lanes are LONG (a million two-element lanes take minutes in the crate).
+fn gen_giant(out: &mut dyn FnMut(String), thorough: bool) {
+    let vec_forms = ["none", "i1", "i2", "inf", "ninf", "i0"];
+    let mat_forms: [(&str, &str, bool); 9] = [("fro", "none", true), ("none", "none", true), ("i1", "1", true), ("i2", "-1", true), ("inf", "0,1", true), ("i1", "1,0", true),
+        ("i1", "0", false), ("i1", "0,1", false), ("inf", "1,0", false)];   // true: shape [2, m], false: shape [m, 2]
+    // validation scope: the model answers (and the reference must agree with it)
+    for len in [1usize, 2, 18, 19, 20, 64, 1021, 1022, 2043, 4097] { for ty in ["f64", "i64", "i32"] { for o in vec_forms {
+        if len > 2043 && (ty == "i32" || o == "ninf" || o == "i0") { continue }
+        out(format!("gnorm {len} {ty} {o} none"));
+    } } }
+    for m in [1usize, 7, 13, 511, 1500] { for ty in ["f64", "i64"] { for (o, ax, wide) in mat_forms {
+        if m > 511 && ty == "i64" && ax != "0,1" { continue }
+        let shape = if wide { [2, m] } else { [m, 2] };
+        out(format!("gnorm {} {ty} {o} {ax}", show_list(&shape)));
+        if m <= 13 { out(format!("gnorm {} {ty} {o} {ax}", show_list(&[shape[1], shape[0]]))); }
+    } } }
+    // giant scope
+    let mut lens: Vec<usize> = vec![(1 << 20) + 1, (1 << 20) + 64 + 7, (1 << 21) + 3];
+    if thorough { lens.extend([(1 << 20) + 4096, 1_500_001, 2_000_003, (1 << 21) + 64]); for s in giant_shapes() { if s.len() == 1 && !lens.contains(&s[0]) { lens.push(s[0]); } } }
+    for (li, &len) in lens.iter().enumerate() { for (oi, o) in vec_forms.iter().enumerate() {
+        if !thorough && (oi + li) % 2 != 0 { continue }
+        let ty = if (oi + li) % 3 == 2 { "i64" } else { "f64" };
+        out(format!("gnorm {len} {ty} {o} none"));
+        if thorough && oi < 2 { out(format!("gnorm {len} i32 {o} none")); }
+    } }
+    let ms: Vec<usize> = if thorough { vec![(1 << 19) + 1, (1 << 20) + 3, 1_000_003] } else { vec![(1 << 19) + 5, (1 << 20) + 3] };
+    for (mi, &m) in ms.iter().enumerate() { for (fi, (o, ax, wide)) in mat_forms.iter().enumerate() {
+        if !thorough && (fi + mi) % 3 != 0 { continue }
+        let shape = if *wide { [2, m] } else { [m, 2] };
+        out(format!("gnorm {} {} {o} {ax}", show_list(&shape), if fi % 4 == 3 { "i64" } else { "f64" }));
+    } }
+}
+
 fn gen(tier: &str, seed: u64, out: &mut dyn FnMut(String)) {
     let thorough = tier == "thorough";
     let mut rng = Rng::new(seed);
@@ -875,6 +911,7 @@ fn gen(tier: &str, seed: u64, out: &mut dyn FnMut(String)) {
     // ---- robustness streams, part 4: magnitude bands (tiny-but-non-zero entries, columns / blocks on their own scales, every power of
     // two as a uniform scale, exact special values through norm)
     gen_bands(out, seed, thorough);
+    gen_giant(out, thorough);
     // ---- malformed
     for line in [
         "solve 2,3:1,2,3,4,5,6 2:1,2", "solve 3,2:1,2,3,4,5,6 3:1,2,3", "solve 4:1,2,3,4 2:1,2", "solve 1,1:5 1:10", "solve 2,2,2:1,2,3,4,5,6,7,9 2:1,2",
@@ -1655,6 +1692,72 @@ fn p_norm(args: &[&str], expected: &str) -> Option<Verdict> {
     Some(Verdict::Match(observed))
 }
 
+// ---------------------------------------------------------------- giant norms (more than 2^20 elements): harness-native reference
+
+/// the digit array of the `gnorm` lines: values -9 … 9, zeros included (the same formula as `digitArr` in Driver/C15.lean)
+fn digit(i: usize) -> i64 { ((i * 7 + i / 13 + i / 1021) % 19) as i64 - 9 }
+/// one lane reduced in exact integer arithmetic, one square root at most
+fn lane_norm(ord: &str, lane: impl Iterator<Item = i64>) -> Option<f64> {
+    Some(match ord {
+        "i1" => lane.map(|x| x.abs()).sum::<i64>() as f64,
+        "i2" | "none" | "fro" => (lane.map(|x| x * x).sum::<i64>() as f64).sqrt(),
+        "inf" => lane.map(|x| x.abs()).max()? as f64,
+        "ninf" => lane.map(|x| x.abs()).min()? as f64,
+        "i0" => lane.filter(|&x| x != 0).count() as f64,
+        _ => return None })
+}
+/// the definitions, written out directly: (shape, values) of `norm(ord, axis)` of the digit array of this shape.  Forms: a vector or a
+/// matrix as a whole (default / 2 / Frobenius; vector 1, inf, -inf, 0), one axis of a matrix, the two matrix norms 1 / inf over (0,1), (1,0)
+fn gnorm_ref(shape: &[usize], ord: &str, axis: &str) -> Option<(Vec<usize>, Vec<f64>)> {
+    let cnt: usize = shape.iter().product();
+    match (shape.len(), axis) {
+        (1, "none") => Some((vec![1], vec![lane_norm(ord, (0..cnt).map(digit))?])),
+        (2, "none") if ord == "none" || ord == "fro" => Some((vec![1], vec![lane_norm("i2", (0..cnt).map(digit))?])),
+        (2, "0") | (2, "-2") => { let (r, c) = (shape[0], shape[1]); Some((vec![c], (0..c).map(|j| lane_norm(ord, (0..r).map(|i| digit(i * c + j)))).collect::<Option<Vec<f64>>>()?)) }
+        (2, "1") | (2, "-1") => { let (r, c) = (shape[0], shape[1]); Some((vec![r], (0..r).map(|i| lane_norm(ord, (0..c).map(|j| digit(i * c + j)))).collect::<Option<Vec<f64>>>()?)) }
+        (2, "0,1") | (2, "1,0") => {
+            let (r, c) = (shape[0], shape[1]);
+            // order 1 over (0,1): greatest column sum; order inf: greatest row sum; the other way round over (1,0)
+            let cols = (ord == "i1") == (axis == "0,1");
+            if ord != "i1" && ord != "inf" { return None }
+            let sums: Vec<i64> = if cols { (0..c).map(|j| (0..r).map(|i| digit(i * c + j).abs()).sum()).collect() } else { (0..r).map(|i| (0..c).map(|j| digit(i * c + j).abs()).sum()).collect() };
+            Some((vec![1], vec![*sums.iter().max()? as f64]))
+        }
+        _ => None,
+    }
+}
+fn g_norm<T: El>(args: &[&str], expected: &str) -> Option<Verdict> {
+    let shape = parse_usize_list(args[0]);
+    let cnt: usize = shape.iter().product();
+    let (ord, ax) = (args[2], args[3]);
+    let (rshape, rvals) = gnorm_ref(&shape, ord, ax)?;
+    // the reference is itself compared with the model wherever the model answers (every `gnorm` line of at most 6000 elements)
+    if expected != "native" {
+        let body = expected.strip_prefix("ok ")?;
+        let (sh, el) = body.split_once(':')?;
+        let vals: Vec<(f64, bool)> = el.split(',').map(sym_val).collect::<Option<Vec<_>>>()?;
+        if parse_usize_list(sh) != rshape || vals.len() != rvals.len() || vals.iter().zip(&rvals).any(|(&(m, _), &w)| !((m - w).abs() <= 1e-12 * w.abs())) {
+            return mismatch(format!("harness-native reference {:?}:{:?}", rshape, &rvals[..rvals.len().min(4)]), format!("the native norm reference disagrees with the model `{}`", truncate(expected, 200)))
+        }
+    }
+    let a = Array::new((0..cnt).map(|i| T::of(digit(i) as f64)).collect::<Vec<T>>(), shape.clone()).ok()?;
+    let axis: Option<Vec<isize>> = if ax == "none" { None } else { Some(parse_isize_list(ax)) };
+    let real = match std::panic::catch_unwind(std::panic::AssertUnwindSafe(|| call_norm(&a, ord, &axis, None))) { Ok(r) => r, Err(_) => return mismatch("panic".into(), "norm of a digit array panics".into()) };
+    // both receivers (giant arrays: on every other line, the clone doubles the cost)
+    if cnt <= 6000 || cnt % 2 == 1 { if let Some(d) = recv_arr(&real, || { let r: Result<Array<T>, ArrayError> = Ok(a.clone()); call_norm(&r, ord, &axis, None) }) { return Some(d) } }
+    drop(a);
+    let r = match &real { Err(e) => return mismatch(format!("err {}", err_name(e)), format!("reference: shape {:?}", rshape)), Ok(r) => r };
+    if !consistent(r) { return mismatch("inconsistent array".into(), "inconsistent array (C01 monitor)".into()) }
+    let (gs, ge) = (r.get_shape().unwrap(), r.get_elements().unwrap());
+    let observed = format!("ok {}:{}", show_list(&gs), ge.iter().take(4).map(|x| format!("{:e}", x.to_f64())).collect::<Vec<_>>().join(","));
+    if gs != rshape || ge.len() != rvals.len() { return mismatch(observed, format!("reference: shape {:?}", rshape)) }
+    for (p, (c, &w)) in ge.iter().zip(&rvals).enumerate() {
+        let (c, w) = (c.to_f64(), want::<T>(w));
+        if !((c - w).abs() <= if T::INT { 0. } else { 1e-12 * w.abs() }) { return mismatch(observed, format!("element {p}: code {c:e}, the definition (exact integer sums, one root) gives {w:e}")) }
+    }
+    Some(Verdict::Match(observed))
+}
+
 fn exec_x(op: &str, args: &[&str], expected: &str) -> Option<Verdict> {
     let v = parse_variant(args.last()?)?;
     macro_rules! on_ty { ($f:ident, $($arg:expr),*) => { match v.ty {
@@ -1714,6 +1817,7 @@ fn exec_case(op: &str, args: &[&str], expected: &str) -> Option<Verdict> {
         "norm" => exec_norm(args, expected),
         "qr" => exec_qr(args, expected),
         "xdet" | "xsolve" | "xnorm" | "xqr" => exec_x(op, args, expected),
+        "gnorm" if args.len() == 4 => match args[1] { "f64" => g_norm::<f64>(args, expected), "i64" => g_norm::<i64>(args, expected), "i32" => g_norm::<i32>(args, expected), _ => None },
         "psolve" if args.len() == 5 => p_solve(args, expected),
         "pdet" if args.len() == 3 => p_det(args, expected),
         "pqr" if args.len() == 3 => p_qr(args, expected),
@@ -1725,6 +1829,7 @@ fn exec_case(op: &str, args: &[&str], expected: &str) -> Option<Verdict> {
 /// non-trivial: solve whose first column needs a row exchange or with >= 2 right-hand sides; det/qr of size >= 3 or of a stack;
 /// norm with an explicit order or axis, or of an array with >= 2 axes
 fn nontrivial(op: &str, args: &[&str]) -> bool {
+    if op == "gnorm" { return true }
     let (shape, e) = parse_arr_raw(args[0]);
     match op {
         "solve" | "xsolve" | "psolve" => {
@@ -1742,5 +1847,5 @@ fn nontrivial(op: &str, args: &[&str]) -> bool {
 
 fn main() {
     harness_main(Spec { prop: "C15", gen, exec, nontrivial, hang_secs: 30,
-        rule: "integer matrices |x|<=9 as f64. exhaustive: all 2x2 over -2..2 and all 3x3 over -1..1 (det, elimination, exchange, product, solve with 1..3 columns, qr; quick: solve/qr on every 4th 3x3), 4x4 over {0,1} (all thorough / every 16th quick); families n=2..6: cond_inf<=1e4 random, row-permuted diagonally dominant, upper/lower triangular, pivot-forcing (zero/small leading entry), exactly singular, stacks [s,n,n] [s,t,n,n]; norm: every order spelling x axis spelling x keepdims on 14 fixed arrays rank<=3; malformed shapes; seeded random stream. robustness streams: EVERY call also on Ok(array) (bit-identical answer required); x-ops = same integer array as f64/f32/i32/i64 times an exact scale 2^+-30 2^+-40 10^+-9 10^+-12 (qr/norm also 2^+-200), model evaluated at the scaled rationals, tolerances relative to the unit of the answer (s^n det, s norm/R, sb/sa solve, 1 Q); norm of 63..4900 elements (every count mod 8, all orders, enum/&str/String spellings, axes, keepdims); n=7,8 families; singular n=2..8 in five recipes (last-pivot deficiency included); stacks with leading axes 7..40 (300 thorough); zero-length axes (det/qr/solve and norm compared in full); 0-d operands, negative vector orders, matrix norms of rank-3 arrays on every ordered axis pair (gen_ext; norm cases up to 300 elements answered by normX over the shared C08 reductions and cross-checked with the lane form). part-2 streams: every matrix directly followed by its look-alikes (transpose, P A P^T, 180-degree rotation, anti-transpose, row / column permutation, same multiset rearranged; original again after each) through solve / det / qr / norm, as stacks, and with the same arguments on f64 f32 i32 i64 back to back; refused-then-valid calls; collision_shape_pairs A,B,A for norm and colliding leading axes for det / qr; A-B-A re-run of the previous case on every third case; norm of 8 193 ... 131 073 elements (counts not multiples of 1000 / 4096 / 6000; whole-array forms on tags to 140 000, digit vectors on f64 f32 i32 i64, lane reductions and axis forms to 20 011, stacks of 1500 / 2001 / 4100 matrices) answered by the model driver itself. open: scaled solve where the absolute |det|<1e-12 test decides (fixes/C15-solve-absolute-singularity-threshold.md). tolerance 1e-9 relative (model vs code and residual oracles). non-trivial = solve needing a row exchange in column 0 or >=2 right-hand sides; det/qr of size>=3 or a stack; norm with explicit order/axis or rank>=2" });
+        rule: "integer matrices |x|<=9 as f64. exhaustive: all 2x2 over -2..2 and all 3x3 over -1..1 (det, elimination, exchange, product, solve with 1..3 columns, qr; quick: solve/qr on every 4th 3x3), 4x4 over {0,1} (all thorough / every 16th quick); families n=2..6: cond_inf<=1e4 random, row-permuted diagonally dominant, upper/lower triangular, pivot-forcing (zero/small leading entry), exactly singular, stacks [s,n,n] [s,t,n,n]; norm: every order spelling x axis spelling x keepdims on 14 fixed arrays rank<=3; malformed shapes; seeded random stream. robustness streams: EVERY call also on Ok(array) (bit-identical answer required); x-ops = same integer array as f64/f32/i32/i64 times an exact scale 2^+-30 2^+-40 10^+-9 10^+-12 (qr/norm also 2^+-200), model evaluated at the scaled rationals, tolerances relative to the unit of the answer (s^n det, s norm/R, sb/sa solve, 1 Q); norm of 63..4900 elements (every count mod 8, all orders, enum/&str/String spellings, axes, keepdims); n=7,8 families; singular n=2..8 in five recipes (last-pivot deficiency included); stacks with leading axes 7..40 (300 thorough); zero-length axes (det/qr/solve and norm compared in full); 0-d operands, negative vector orders, matrix norms of rank-3 arrays on every ordered axis pair (gen_ext; norm cases up to 300 elements answered by normX over the shared C08 reductions and cross-checked with the lane form). part-2 streams: every matrix directly followed by its look-alikes (transpose, P A P^T, 180-degree rotation, anti-transpose, row / column permutation, same multiset rearranged; original again after each) through solve / det / qr / norm, as stacks, and with the same arguments on f64 f32 i32 i64 back to back; refused-then-valid calls; collision_shape_pairs A,B,A for norm and colliding leading axes for det / qr; A-B-A re-run of the previous case on every third case; norm of 8 193 ... 131 073 elements (counts not multiples of 1000 / 4096 / 6000; whole-array forms on tags to 140 000, digit vectors on f64 f32 i32 i64, lane reductions and axis forms to 20 011, stacks of 1500 / 2001 / 4100 matrices) answered by the model driver itself. part-4 streams (round 5, magnitude bands): p-ops = every ENTRY with its own exact scale (integer * 2^e or 10^e, exponent array on the wire, model at the exact rationals): psolve / pdet on well-conditioned matrices (cond_inf<=1e3) with tiny-but-non-zero entries 2^-7..2^-60 / 1e-3..1e-16 in seven patterns (one entry, strictly lower, strictly upper, a column but one entry, random third, lower + row permutation, lower with one common exponent), n=2..6, right-hand sides plain / every column on its own scale 2^-60..2^60 / single tiny entries; pqr / pdet with every column resp. every block of a stack resp. every row (det) on its own scale, Q also compared with the unscaled call; uniform scale sweep EVERY 2^k, k=-60..60, through xsolve (A and b alike / A only / b only / opposite) xqr xdet xnorm on five matrices with the exactly rescaled answer of the unscaled call demanded as well (1e-13); pnorm: mixed-magnitude vectors and matrices (12 orders), every integer -1100..1100, 41 constants (E PI LN_2 ... with negatives and reciprocals), every 2^k k=-1074..1023 with both neighbours (any f64 is spelled exactly as odd-integer * 2^e), relative tolerance 1e-12 of the value itself. residual oracle of EVERY f64 solve now at rounding level: |A x - b| <= 1e-13 (n |A| |x_c| + |b_c|) column by column. part-3 stream: gnorm = norm of digit arrays of 2^20+1 ... 2^21+3 elements (vectors: default 1 2 inf -inf 0; [2,m] / [m,2]: Frobenius, one axis, matrix 1 / inf norms; f64 i64 i32) against a harness-native reference in exact integer arithmetic that is compared with the model on ~300 smaller gnorm lines of the same run. open: scaled solve where the absolute |det|<1e-12 test decides (fixes/C15-solve-absolute-singularity-threshold.md). tolerance 1e-9 relative (model vs code), residuals 1e-13. non-trivial = solve needing a row exchange in column 0 or >=2 right-hand sides; det/qr of size>=3 or a stack; norm with explicit order/axis or rank>=2" });
 }
